@@ -872,6 +872,8 @@ package channel
 //@ ghost func srcID(s Source) ID
 //@ ghost func srcIdx(s Source) Index
 //@ ghost func srcPhase(s Source) Phase
+//@ ghost func srcStagingTX(s Source) Transaction
+//@ ghost func srcCurrentTX(s Source) Transaction
 //@ interface Source
 //@   method ID
 //@     requires recv != nil
@@ -887,6 +889,17 @@ package channel
 //@     ensures result == srcPhase(recv)
 //@   method StagingTX
 //@     requires recv != nil
+//@     ensures sameTX(result, srcStagingTX(recv))
 //@   method CurrentTX
 //@     requires recv != nil
+//@     ensures sameTX(result, srcCurrentTX(recv))
 //@ end
+
+// restoreMachine (C10): the restored machine has exactly the parameters, phase, staged and current transaction of the source.
+//@ ghost func srcStagingState(s Source) *State
+//@ func restoreMachine
+//@   requires source != nil && accNonNil(acc) && partsNonNil(srcParams(source).Parts) && len(srcParams(source).Parts) <= 65535
+//@   ensures result1 != nil ==> result0 == nil
+//@   ensures result1 == nil ==> result0 != nil && fresh(result0) && result0.phase == srcPhase(source) && result0.params == *srcParams(source) && result0.acc == acc
+//@   ensures result1 == nil ==> sameTX(result0.stagingTX, srcStagingTX(source)) && sameTX(result0.currentTX, srcCurrentTX(source))
+//@   callsite newMachine : params == *srcParams(source)
